@@ -95,6 +95,9 @@ impl Cell {
                 Some(500),
                 Some(Duration::from_millis(2)),
             ),
+            // a memory limit smaller than most single writes, but nothing expires and the cleaner does not run in the
+            // meantime: what the cache holds is decided by the write path alone
+            "tight" => StorageManager::new(db, None, Some(500), None),
             other => panic!("bad cache {other}"),
         }
     }
